@@ -230,4 +230,21 @@ example :
       ([.construct 0, .construct 1, .construct 2, .handOver 0, .handOver 1, .handOver 2], .returned)) = true := by
   decide
 
+/-- a destructor that unwinds during the guard's cleanup changes how the call ends, not which
+elements are released: every constructed element is still dropped exactly once (what the code relies
+on is the drop glue of slices; a hand-written loop over the prefix would stop at the first unwinding
+destructor - seeded change C15e) -/
+theorem C15_exactly_once_with_unwinding_destructor (N : Nat) (plan : Nat → ElemResult) (j i : Nat) :
+    ((arrayRunDropPanic N plan j).1.count (.construct i)) =
+      ((arrayRunDropPanic N plan j).1.count (.dropElem i)) +
+      ((arrayRunDropPanic N plan j).1.count (.handOver i)) :=
+  C15_exactly_once N plan i
+
+example :
+    (arrayRunDropPanic 5 (fun i => if i == 3 then .err else .ok) 1 ==
+      ([.construct 0, .construct 1, .construct 2, .dropElem 0, .dropElem 1, .dropElem 2], .unwound)) &&
+    (arrayRunDropPanic 5 (fun i => if i == 3 then .err else .ok) 4 ==
+      ([.construct 0, .construct 1, .construct 2, .dropElem 0, .dropElem 1, .dropElem 2], .failed)) = true := by
+  decide
+
 end Borsh
